@@ -5,7 +5,7 @@
    for empty loaders is stated separately (the real code raises UnboundLocalError on `i`). *)
 From Coq Require Import List Bool Arith ZArith QArith String.
 Import ListNotations.
-From SG Require Import State.Contexts State.Trainer Proofs.TrainerProofs Proofs.TrainerHistoryProofs.
+From SG Require Import State.Contexts State.ModeTree State.Trainer Proofs.TrainerProofs Proofs.TrainerHistoryProofs Proofs.TrainerTreeProofs.
 
 Notation llen := List.length.
 
@@ -87,6 +87,27 @@ Theorem eval_mode_comes_from_eval_call :
 Proof. exact eval_after_evalmode. Qed.
 Goal True. idtac "ASSUMPTIONS eval_mode_comes_from_eval_call". Abort.
 Print Assumptions eval_mode_comes_from_eval_call.
+
+(* ---- every sub-layer is in the model's mode ------------------------------------------------------------- *)
+(* The model is a module TREE (State/ModeTree.v: a `training` flag per module; model.train()/model.eval() set the
+   flag of the root and of every descendant).  Whatever the flags were when fit was entered (children switched
+   individually, layers attached after model.eval(), ...): at every forward of fit, every module below the model
+   has the model-level mode of [forward_modes] — training during training forwards, eval during validation. *)
+Theorem every_submodule_follows_the_model_mode :
+  forall c epochs t0 g0 sv t lp f pre post, (1 <= nb c)%nat -> val_ok c ->
+    fst (fit c epochs) = pre ++ Forward :: post -> flag_at t lp = Some f ->
+    flag_at (tree_after t pre) lp = Some (mtrain (mrun (mstart t0 g0 sv) pre)).
+Proof. exact fit_submodules. Qed.
+Goal True. idtac "ASSUMPTIONS every_submodule_follows_the_model_mode". Abort.
+Print Assumptions every_submodule_follows_the_model_mode.
+
+(* ... and at every forward of Trainer.test every module below the model is in eval mode *)
+Theorem test_every_submodule_in_eval_mode :
+  forall nbt t lp f pre post, test_trace nbt = pre ++ Forward :: post -> flag_at t lp = Some f ->
+    flag_at (tree_after t pre) lp = Some false.
+Proof. exact test_submodules. Qed.
+Goal True. idtac "ASSUMPTIONS test_every_submodule_in_eval_mode". Abort.
+Print Assumptions test_every_submodule_in_eval_mode.
 
 (* ---- the gradient mode after fit is the mode before --------------------------------------------------- *)
 Theorem grad_mode_restored :
